@@ -447,20 +447,31 @@ def check_main(driver_cls, tier, budget_s, base_seed, workers=None, max_runs=Non
     seeds = (mix64(base_seed, prop, i) % (1 << 48) for i in range(10 ** 9))
     deadline = time.time() + budget_s   # the budget is exploration time; builds come on top
     with mp.Pool(workers, initializer=_worker_init, initargs=(driver_cls, flavours)) as pool:
-        def feed():
-            n = 0
-            for s in seeds:
-                if time.time() > deadline or (max_runs and n >= max_runs):
-                    return
-                n += 1
-                yield (s, tier)
-        for r in pool.imap_unordered(_worker_run, feed(), chunksize=4):
+        # bounded submission: at most 3 tasks per worker are outstanding, so the batch stops at the deadline
+        # (plus the runs in flight) instead of draining a pre-filled queue
+        import collections
+        pending = collections.deque()
+        submitted = 0
+
+        def take(r):
             if "harness_error" in r:
                 harness_errors.append(r)
-                continue
+                return
             results.append(r)
             for sig, detail in r["violations"]:
                 by_sig.setdefault(sig, []).append((r["seed"], detail))
+        for sd in seeds:
+            if time.time() > deadline or (max_runs and submitted >= max_runs):
+                break
+            while len(pending) >= 3 * workers:
+                # wait for the oldest outstanding task (results of the others are collected as they come up)
+                take(pending.popleft().get())
+                while pending and pending[0].ready():
+                    take(pending.popleft().get())
+            pending.append(pool.apply_async(_worker_run, ((sd, tier),)))
+            submitted += 1
+        while pending:
+            take(pending.popleft().get())
     # ---- violations: minimise, classify, confirm ----
     exit_code = 0
     lines = []
